@@ -122,8 +122,10 @@ pub enum Class {
     /// pointer (r1 on a raw VM, the data slot on a fixed-metadata VM), loads them again: the second
     /// load must see what is in the packet now
     ProbePktReload,
-    /// a recursive local function whose depth (0-15) is the low nibble of the packet's first byte:
-    /// beyond the interpreter's limit of nested calls on some packets, shallow on others
+    /// nested local calls whose depth is the low nibble of the packet's first byte: one recursive
+    /// function (depth 0-15; compiled engines only, the interpreter cannot execute a backward call
+    /// where overflow checks are compiled in) or a chain of ten functions (depth 0-10, forward calls
+    /// only: beyond the interpreter's limit of nested calls on some packets, shallow on others)
     DeepCall,
     /// adjacent indirect packet loads: the second one is indexed by what the first one loaded (source
     /// register r0), or both use the same other source register
@@ -428,7 +430,8 @@ pub fn gen_stack_fill(rng: &mut Rng, tag: u8, has_pkt: bool) -> Prog {
         b.i(MOV64_REG, 1, 10, 0, 0);
         b.i(ADD64_IMM, 1, 0, 0, -512 + 8 * rng.below(64) as i32);
         b.i(MOV64_IMM, 2, 0, 0, tag as i32);
-        b.i(MOV64_IMM, 3, 0, 0, 3);
+        // half of the time the helper runs another program (on a VM of its own) before it returns
+        b.i(MOV64_IMM, 3, 0, 0, if rng.chance(1, 2) { crate::vmwrap::REENTER as i32 } else { 3 });
         b.i(MOV64_IMM, 4, 0, 0, 4);
         b.i(MOV64_IMM, 5, 0, 0, 5);
         b.i(CALL, 0, 0, 0, KEY_PROBE_STACK as i32);
@@ -1053,6 +1056,40 @@ pub fn gen_deep_call(tag: u8) -> Prog {
     let mut p = mk(b.v, tag, Class::DeepCall);
     p.min_pkt = 8;
     p.local_call = true;
+    p
+}
+
+/// The same without a backward call (which the interpreter cannot execute where overflow checks are
+/// compiled in): ten distinct functions, f1 calls f2 ... calls f10, each returning early once the
+/// packet's counter is used up. Depth 0-10: beyond the interpreter's limit of nested calls on some
+/// packets. r0 = number of calls made (then the trailer).
+pub fn gen_deep_call_chain(tag: u8) -> Prog {
+    let mut b = B::new(tag);
+    b.i(LD_ABS_B, 0, 0, 0, 0); // 1
+    b.i(MOV64_REG, 6, 0, 0, 0); // 2
+    b.i(0x57, 6, 0, 0, 0x0f); // 3: and64 r6, 15
+    b.i(CALL, 0, 1, 0, 4); // 4 -> 9 (f1)
+    b.trailer(tag); // 5, 6, 7
+    b.i(EXIT, 0, 0, 0, 0); // 8
+    assert_eq!(b.len(), 9);
+    for k in 0..10 {
+        // f: jne r6, 0, +2 ; mov r0, 0 ; exit ; sub r6, 1 ; call next ; add r0, 1 ; exit
+        b.i(0x55, 6, 0, 2, 0);
+        b.i(MOV64_IMM, 0, 0, 0, 0);
+        b.i(EXIT, 0, 0, 0, 0);
+        b.i(0x17, 6, 0, 0, 1);
+        if k < 9 {
+            b.i(CALL, 0, 1, 0, 2); // the next function starts two instructions further on
+        } else {
+            b.i(MOV64_IMM, 0, 0, 0, 0); // the last one calls nobody
+        }
+        b.i(ADD64_IMM, 0, 0, 0, 1);
+        b.i(EXIT, 0, 0, 0, 0);
+    }
+    let mut p = mk(b.v, tag, Class::DeepCall);
+    p.min_pkt = 8;
+    p.local_call = true;
+    p.p1 = 1;
     p
 }
 
